@@ -159,15 +159,20 @@ class ImplRunner:
         results = []
         n = len(cases)
         sent = 0
+        blobs = [(json.dumps(c) + "\n").encode() for c in cases]
+        inflight = []          # sizes of the inputs sent and not yet answered
         if self.p is None:
             self._spawn()
         while len(results) < n:
-            while sent < n and sent - len(results) < window:
+            # never let un-answered input exceed the pipe capacity: the parent must not block in write
+            # while the worker blocks writing results (a lone oversized case is sent when nothing is in flight)
+            while sent < n and len(inflight) < window and (not inflight or sum(inflight) + len(blobs[sent]) < 60000):
                 try:
-                    self.p.stdin.write((json.dumps(cases[sent]) + "\n").encode())
+                    self.p.stdin.write(blobs[sent])
                     self.p.stdin.flush()
                 except (BrokenPipeError, OSError):
                     break
+                inflight.append(len(blobs[sent]))
                 sent += 1
             line = self._readline()
             if line is None:
@@ -177,7 +182,10 @@ class ImplRunner:
                 results.append(["crash"] if crashed else ["timeout"])
                 self._spawn()
                 sent = len(results)
+                inflight = []
                 continue
+            if inflight:
+                inflight.pop(0)
             results.append(json.loads(line))
         return results
 
